@@ -180,3 +180,130 @@ Proof. vm_compute. discriminate. Qed.
 Example display_pass_example :
   display_pass 1 [10; 20; 30]%Z (brun false [10; 20; 30]%Z [Consume]) = [Some 138; Some 158; Some 188]%Z.
 Proof. vm_compute. reflexivity. Qed.
+
+(* ------------------------------------------------------------ multi-scan coefficient arrays *)
+(* consistent prefix: rows before the input row hold the scans 1..scan, the others 1..scan-1 *)
+Definition pinv (nscans nrows : nat) (s : pst) : Prop :=
+  1 <= p_scan s /\ p_scan s <= nscans /\ length (p_ver s) = nrows /\
+  (forall j, j < nrows -> nth j (p_ver s) 0 = if Nat.ltb j (p_row s) then p_scan s else p_scan s - 1) /\
+  (if p_eoi s then p_scan s = nscans /\ p_row s = nrows else p_row s < nrows).
+
+Lemma setn_length : forall i v l, length (setn i v l) = length l.
+Proof. induction i; destruct l; simpl; auto. Qed.
+Lemma nth_setn_same : forall i v l, i < length l -> nth i (setn i v l) 0 = v.
+Proof. induction i; destruct l; simpl; intros; try lia; auto. apply IHi. lia. Qed.
+Lemma nth_setn_other : forall i j v l, i <> j -> nth i (setn j v l) 0 = nth i l 0.
+Proof. induction i; destruct j; destruct l; simpl; intros; auto; try lia. all: try (apply IHi; lia). Qed.
+
+Lemma pinit_inv : forall nscans nrows, 1 <= nscans -> 1 <= nrows -> pinv nscans nrows (pinit nrows).
+Proof.
+  intros. unfold pinv, pinit. simpl. repeat split; auto; try lia; try apply repeat_length.
+  intros j Hj. rewrite nth_repeat. reflexivity.
+Qed.
+
+Lemma pconsume_inv : forall nscans nrows s, pinv nscans nrows s -> pinv nscans nrows (pconsume nscans nrows s).
+Proof.
+  intros nscans nrows s (A & B & C & D & E). unfold pconsume.
+  destruct (p_eoi s) eqn:Eo; [repeat split; auto; now rewrite Eo|].
+  assert (V : forall j, j < nrows -> nth j (setn (p_row s) (p_scan s) (p_ver s)) 0 =
+                                   if Nat.ltb j (S (p_row s)) then p_scan s else p_scan s - 1).
+  { intros j Hj. destruct (Nat.eq_dec j (p_row s)) as [->|N].
+    - rewrite nth_setn_same by lia. destruct (Nat.ltb_spec (p_row s) (S (p_row s))); [reflexivity|lia].
+    - rewrite nth_setn_other by auto. rewrite D by auto.
+      destruct (Nat.ltb_spec j (p_row s)); destruct (Nat.ltb_spec j (S (p_row s))); try reflexivity; lia. }
+  destruct (Nat.ltb_spec (S (p_row s)) nrows).
+  - unfold pinv. simpl. rewrite setn_length. repeat split; auto.
+  - destruct (Nat.ltb_spec (p_scan s) nscans).
+    + unfold pinv. simpl. rewrite setn_length. repeat split; auto; try lia.
+      intros j Hj. rewrite V by auto. destruct (Nat.ltb_spec j (S (p_row s))); [|lia]. simpl. lia.
+    + unfold pinv. simpl. rewrite setn_length. repeat split; auto; lia.
+Qed.
+
+(* what remains to be read *)
+Definition pleft (nscans nrows : nat) (s : pst) : nat :=
+  if p_eoi s then 0 else (nscans - p_scan s) * nrows + (nrows - p_row s).
+
+Lemma pconsume_less : forall nscans nrows s, pinv nscans nrows s -> p_eoi s = false ->
+  pleft nscans nrows (pconsume nscans nrows s) < pleft nscans nrows s.
+Proof.
+  intros nscans nrows s (A & B & C & D & E) Eo. unfold pleft, pconsume. rewrite Eo in *.
+  destruct (Nat.ltb_spec (S (p_row s)) nrows); simpl; [lia|].
+  destruct (Nat.ltb_spec (p_scan s) nscans); simpl; [|lia].
+  replace (nscans - p_scan s) with (S (nscans - S (p_scan s))) by lia. simpl. lia.
+Qed.
+
+Lemma pforce_spec : forall fuel ahead nscans nrows N r s, pinv nscans nrows s -> pleft nscans nrows s < fuel ->
+  let s1 := pforce fuel ahead nscans nrows N r s in
+  pinv nscans nrows s1 /\
+  (p_eoi s1 = true \/ (N <= p_scan s1 /\ (p_scan s1 = N -> r + ahead <= p_row s1))).
+Proof.
+  induction fuel as [|f IH]; intros ahead nscans nrows N r s I L; [lia|]. simpl.
+  destruct (p_eoi s) eqn:Eo; [split; auto|].
+  destruct (Nat.ltb (p_scan s) N || (Nat.eqb (p_scan s) N && Nat.ltb (p_row s) (r + ahead))) eqn:C.
+  - apply IH; [now apply pconsume_inv|]. pose proof (pconsume_less _ _ _ I Eo). lia.
+  - split; [exact I|]. right. apply orb_false_iff in C. destruct C as [C1 C2].
+    apply Nat.ltb_ge in C1. split; [exact C1|]. intros Hs.
+    apply andb_false_iff in C2. destruct C2 as [C2|C2]; [apply Nat.eqb_neq in C2; contradiction|].
+    now apply Nat.ltb_ge in C2.
+Qed.
+
+Lemma pleft_bound : forall nscans nrows s, pinv nscans nrows s -> pleft nscans nrows s < S (nscans * nrows).
+Proof.
+  intros nscans nrows s (A & B & C & D & E). unfold pleft. destruct (p_eoi s); [lia|].
+  assert ((nscans - p_scan s) * nrows + nrows <= nscans * nrows).
+  { replace ((nscans - p_scan s) * nrows + nrows) with ((S (nscans - p_scan s)) * nrows) by (simpl; lia).
+    apply Nat.mul_le_mono_r. lia. }
+  lia.
+Qed.
+
+(* every row rendered by a pass on scan N holds at least the scans 1..N, and the arrays are a consistent
+   prefix of the scan sequence at that moment *)
+Theorem prender_consistent : forall ahead nscans nrows N r s, 1 <= ahead -> pinv nscans nrows s ->
+  N <= nscans -> r < nrows ->
+  let (v, s1) := prender ahead nscans nrows N r s in pinv nscans nrows s1 /\ N <= v /\ v <= nscans.
+Proof.
+  intros ahead nscans nrows N r s Ha I HN Hr. unfold prender.
+  destruct (pforce_spec (S (nscans * nrows)) ahead nscans nrows N r s I (pleft_bound _ _ _ I)) as [I1 P].
+  set (s1 := pforce _ _ _ _ _ _ s) in *. split; [exact I1|].
+  destruct I1 as (A & B & C & D & E). rewrite D by auto.
+  destruct P as [P|(P1 & P2)].
+  - rewrite P in E. destruct (Nat.ltb_spec r (p_row s1)); lia.
+  - destruct (Nat.ltb_spec r (p_row s1)); [lia|].
+    destruct (Nat.eq_dec (p_scan s1) N) as [Q|Q]; [specialize (P2 Q); lia | lia].
+Qed.
+
+Lemma prun_inv : forall ahead nscans nrows ops, 1 <= nscans -> 1 <= nrows ->
+  pinv nscans nrows (prun ahead nscans nrows ops).
+Proof.
+  intros ahead nscans nrows ops H1 H2. unfold prun.
+  assert (G : forall s, pinv nscans nrows s -> pinv nscans nrows (fold_left (pstep ahead nscans nrows) ops s)).
+  { induction ops as [|o ops IH]; intros s I; simpl; [exact I|]. apply IH.
+    destruct o as [|N r]; simpl; [now apply pconsume_inv|].
+    apply (pforce_spec (S (nscans * nrows)) ahead nscans nrows N r s I (pleft_bound _ _ _ I)). }
+  apply G. now apply pinit_inv.
+Qed.
+
+(* under EVERY application schedule (consume_input calls and rendered rows of any passes in any order) *)
+Theorem progressive_pass_consistent : forall ahead nscans nrows ops N r, 1 <= ahead -> 1 <= nscans -> 1 <= nrows ->
+  N <= nscans -> r < nrows ->
+  N <= fst (prender ahead nscans nrows N r (prun ahead nscans nrows ops)).
+Proof.
+  intros. pose proof (prender_consistent ahead nscans nrows N r _ H (prun_inv ahead nscans nrows ops H0 H1) H2 H3) as P.
+  destruct (prender ahead nscans nrows N r (prun ahead nscans nrows ops)). simpl. tauto.
+Qed.
+
+(* and once the input is complete every row holds all the scans: the final pass is the whole-file image *)
+Theorem progressive_final_pass : forall nscans nrows s r, pinv nscans nrows s -> p_eoi s = true -> r < nrows ->
+  nth r (p_ver s) 0 = nscans.
+Proof.
+  intros nscans nrows s r (A & B & C & D & E) Eo Hr. rewrite Eo in E. destruct E as [E1 E2].
+  rewrite D by auto. destruct (Nat.ltb_spec r (p_row s)); lia.
+Qed.
+
+Example progressive_zero_ahead_refuted :
+  fst (prender 0 3 4 3 0 (prun 0 3 4 (repeat PConsume 8))) < 3.
+Proof. vm_compute. lia. Qed.
+
+Example progressive_example :
+  fst (prender 1 3 4 3 0 (prun 1 3 4 (repeat PConsume 8 ++ [PRender 2 1; PConsume]))) = 3.
+Proof. vm_compute. reflexivity. Qed.
